@@ -19,7 +19,7 @@ THEOREMS = ['C04_B_expand_exact', 'C04_B_tree_tidy', 'C04_collapse_is_expand', '
             'C04_A_sound_sentence', 'C04_A_complete_partial', 'C04_A_alg_erasure', 'C04_A_alg_families_sound',
             'C04_A_alg_families_complete', 'C04_A_exact', 'C04_A_complete', 'C04_A_exact_gen', 'C04_A_example',
             'C04_A_dynamic_erasure', 'C04_A_dynamic_sound', 'C04_A_dynamic_sound_checked', 'C04_A_dynamic_families_sound',
-            'C04_A_dynamic_model_sound', 'C04_A_dynamic_complete_partial', 'C04_A_dynamic_example', 'C04_example']
+            'C04_A_dynamic_model_sound', 'C04_A_dynamic_complete_partial', 'C04_A_dynamic_scan_complete', 'C04_A_dynamic_example', 'C04_example']
 GEN_DEPS = []
 RULE = ('random ambiguous grammars (<=4 non-terminals, <=3 alternatives of length <=3, ?rules, _inlined rules, aliases, '
         '[optional] with placeholders, !keep-all rules, filtered anonymous tokens, EBNF * and +), three lexers (basic, '
@@ -36,6 +36,9 @@ RULE = ('random ambiguous grammars (<=4 non-terminals, <=3 alternatives of lengt
         'inlined _rules (ambiguous intermediate node over an ambiguous inlined child, 2-3 levels, ?rules, !rules, filtered and '
         'kept tokens) x 3 lexers x placeholders on/off, same oracle and Coq comparisons; the random generator draws 20% of '
         'its acyclic grammars from the same class (gen_chain_grammar); '
+        'overlap-corpus stream (fixed) and 20% of the ignore / dyn-families grammars: regexp terminals overlapping the ignored '
+        'characters (AS = /a\\s/ next to A = "a", greedy %ignore WS, several blanks): one item carried to a position from '
+        'two origins; '
         'dyn-families stream: the same add_family log comparison for the dynamic lexers (with %ignore carry-over) against '
         'Forest/ExplicitDynBuild on recorded regex answers, plus the local-form check of every family over the position '
         'graph of the text; '
@@ -53,7 +56,8 @@ ASSUMPTIONS = ['no rule or alias is named _ambig/_iambig (reserved tree labels)'
                'basic lexer; dynamic = terminal matches given by re.match at each position (longest); dynamic_complete = '
                'additionally every proper prefix of that match which the terminal matches',
                '%ignore (dynamic lexers): a chain of non-empty re.match results of %ignore terminals may precede any token and '
-               'follow the last one; ignorable characters are disjoint from the grammar terminals in the generated grammars; '
+               'follow the last one; besides grammars whose terminals are disjoint from the ignorable characters there is a family '
+               'whose regexp terminals overlap them (a word may swallow one adjacent blank); '
                'layer A for grammars with %ignore: under the basic lexer on the token list the lexer leaves (positions = token '
                'indices); under the dynamic lexers through the instrumented dynamic model (dyn-families)']
 
@@ -144,6 +148,62 @@ IGNORE_SETS = [
     ([' ', '-'], ['WS: /[ ]+/', 'DD: "--"', 'D: "-"', '%ignore WS', '%ignore DD', '%ignore D']),
     ([' ', '-'], ['IGN: /[ -]+/', '%ignore IGN']),
 ]
+
+
+# Terminals that overlap the ignored characters: a word may swallow one adjacent blank (AS = /a\s/ next to A = "a",
+# SB = / b/ next to B = "b") while a greedy multi-character %ignore covers the rest.  One item then reaches a position
+# from two different origins inside the ignorable stretch ("a  b": after A at 1 and after AS at 2, both carried to 3),
+# and the carry-over must merge the families of both.  Fixed corpus (independent of VERIF_SEED) + random members.
+OVERLAP_CORPUS = [
+    ('start: w "b"\nw: A | AS\nA: "a"\nAS: /a\\s/\nWS: /\\s+/\n%ignore WS\n', ['a b', 'a  b', 'a \t b', 'a   b', 'ab', ' a  b ']),
+    ('start: w B\nw: short | long\nshort: A\nlong: AS\nA: "a"\nB: "b"\nAS: /a\\s/\nWS: /\\s+/\n%ignore WS\n', ['a b', 'a  b', 'a   b']),
+    ('start: A sb\nsb: B | SB\nA: "a"\nB: "b"\nSB: / b/\nWS: / +/\n%ignore WS\n', ['a b', 'a  b', 'a   b', 'ab']),
+    ('start: x y\nx: A | AS\ny: B | SB\nA: "a"\nB: "b"\nAS: /a /\nSB: / b/\nWS: /[ \\t]+/\n%ignore WS\n', ['a b', 'a  b', 'a   b', 'a \t b']),
+    ('start: w w\n?w: A | AS -> sw\nA: "a"\nAS: /a\\s/\nWS: /\\s+/\n%ignore WS\n', ['a a', 'a  a', 'a  a ', 'a   a  ']),
+    ('start: _w "b"\n_w: A | AS | A A\nA: "a"\nAS: /a\\s/\nWS: /\\s+/\n%ignore WS\n', ['a  b', 'a a  b', 'a  a  b']),
+    ('start: w "b"\nw: A | AD\nA: "a"\nAD: /a-/\n%ignore "-"\n%ignore "--"\n', ['a-b', 'a--b', 'a---b', 'a----b']),
+    ('start: w* B\nw: A | AS\nA: "a"\nB: "b"\nAS: /a\\s/\nWS: /\\s+/\n%ignore WS\n', ['a  b', 'a  a  b', '  b']),
+]
+
+
+def gen_overlap_grammar(rng, lexer):
+    """random member of the family above over the letters a, b"""
+    ws = rng.choice(['/\\s+/', '/ +/', '/[ \\t]+/'])
+    lines = []
+    k = rng.randint(2, 3)
+    names = ['w%d' % j for j in range(k)]
+    seq = list(names)
+    if rng.random() < 0.3:
+        seq[rng.randrange(k)] += rng.choice(['*', '?', '+'])
+    if rng.random() < 0.3:
+        seq.insert(rng.randrange(k + 1), rng.choice(['"b"', 'B', '"a"']))
+    lines.append('start: ' + ' '.join(seq) + (' -> top' if rng.random() < 0.2 else ''))
+    for nm in names:
+        c = rng.choice('ab')
+        up = c.upper()
+        alts = rng.sample([up, up + 'S', 'S' + up, up + ' ' + up, '"%s"' % c], rng.randint(2, 3))
+        if rng.random() < 0.2:
+            alts[0] += ' -> al'
+        lines.append('%s%s: %s' % (rng.choice(['', '', '?', '_' if False else '']), nm, ' | '.join(alts)))
+    lines += ['A: "a"', 'B: "b"', 'AS: /a\\s/', 'BS: /b\\s/', 'SA: / a/', 'SB: / b/', 'WS: %s' % ws, '%ignore WS']
+    return '\n'.join(lines) + '\n'
+
+
+def overlap_inputs(rng, k=10):
+    out = []
+    for _ in range(k):
+        ws = [rng.choice(['a', 'b']) for _ in range(rng.randint(1, 4))]
+        t = ''
+        for j, c in enumerate(ws):
+            if j:
+                t += ' ' * rng.choice([0, 1, 1, 2, 2, 3])
+            t += c
+        if rng.random() < 0.3:
+            t = ' ' * rng.randint(1, 2) + t
+        if rng.random() < 0.4:
+            t += ' ' * rng.randint(1, 2)
+        out.append(t)
+    return out
 
 
 def add_ignores(rng, grammar):
@@ -1280,11 +1340,16 @@ def run_stream(ctx, stream, ngrammars, cyclic_wanted, maxlen, cases, meta, defs,
             # grammars with %ignore terminals; half of them with the ambiguity at the root between differently shaped
             # alternatives of the start symbol; mostly the dynamic lexers (ignored text is skipped by the parser itself)
             lexer = rng.choice(['basic', 'dynamic', 'dynamic', 'dynamic_complete', 'dynamic_complete'])
-            if rng.random() < 0.55:
-                g, alphabet = gen_root_ambig_grammar(rng, lexer), 'xy'
+            overlap = rng.random() < 0.2
+            if overlap:
+                # terminals overlapping the ignored blanks (one item carried to a position from two origins)
+                g, ign_chars = gen_overlap_grammar(rng, lexer), [' ']
             else:
-                g = gen_grammar(rng, lexer, False)
-            g, ign_chars = add_ignores(rng, g)
+                if rng.random() < 0.55:
+                    g, alphabet = gen_root_ambig_grammar(rng, lexer), 'xy'
+                else:
+                    g = gen_grammar(rng, lexer, False)
+                g, ign_chars = add_ignores(rng, g)
         else:
             g = gen_grammar(rng, lexer, cyclic_wanted)
         try:
@@ -1304,7 +1369,9 @@ def run_stream(ctx, stream, ngrammars, cyclic_wanted, maxlen, cases, meta, defs,
             # (cyclic grammars: converting the forest of a longer input can take minutes and a time-out there is no verdict)
             inputs += longer
             inputs += ['a' * k for k in range(maxlen + 1, maxlen + 4)] + ['a' * rng.randint(2, 5) + 'b', 'b' + 'a' * rng.randint(2, 5)]
-        if ignore:
+        if ignore and overlap:
+            inputs = overlap_inputs(rng, 14) + ['a  b', 'a   b', ' a  a ']
+        elif ignore:
             inputs = [t for t in inputs if len(t) <= maxlen]
             inputs = inputs + [decorate(rng, t, ign_chars) for t in inputs for _ in range(2)] + [rng.choice(ign_chars)]
         if corpus is not None:
@@ -1370,6 +1437,7 @@ def correspond(ctx):
     k = 3 if ctx.widen else 1
     acases = ([], [], [])
     run_stream(ctx, 'stacked-corpus', 0, False, 0, cases, meta, defs, acases, corpus=STACKED_CORPUS)
+    run_stream(ctx, 'overlap-corpus', 0, False, 0, cases, meta, defs, None, corpus=OVERLAP_CORPUS)
     run_stream(ctx, 'acyclic', ctx.scale(80, 1500) * k, False, 4, cases, meta, defs, acases)
     run_stream(ctx, 'cyclic', ctx.scale(25, 300) * k, True, 3, cases, meta, defs, acases)
     # %ignore: layer B and the derivation oracle; layer A (graph form, added-vs-forest) where the lexer is basic - the
@@ -1481,12 +1549,20 @@ def run_dyn_families(ctx, ngrammars):
     rng = ctx.rng
     terms, dmeta = [], []
     made = attempts = 0
-    while made < ngrammars and attempts < ngrammars * 30:
+    # the fixed overlap corpus first (both dynamic lexers, independent of the seed), then random grammars
+    corpus_left = [(g, ins, lx) for g, ins in OVERLAP_CORPUS for lx in ('dynamic', 'dynamic_complete')]
+    while (corpus_left or made < ngrammars) and attempts < ngrammars * 30 + len(OVERLAP_CORPUS) * 2:
         attempts += 1
         lexer = rng.choice(['dynamic', 'dynamic_complete'])
         opts = {'maybe_placeholders': True, 'keep_all_tokens': False}
         chars, alpha = [], 'ab'
-        if rng.random() < 0.5:
+        fixed_inputs = None
+        from_corpus = bool(corpus_left)
+        if corpus_left:
+            g, fixed_inputs, lexer = corpus_left.pop()
+        elif rng.random() < 0.2:
+            g, fixed_inputs = gen_overlap_grammar(rng, lexer), overlap_inputs(rng, 10) + ['a  b', 'a   b']
+        elif rng.random() < 0.5:
             if rng.random() < 0.5:
                 g, alpha = gen_root_ambig_grammar(rng, lexer), 'xy'
             else:
@@ -1498,10 +1574,13 @@ def run_dyn_families(ctx, ngrammars):
             parser = with_timeout(lambda: make_parser(g, lexer, **opts))
         except (GrammarError, Hang):
             continue
-        made += 1
+        if not from_corpus:
+            made += 1
         inputs = list(all_inputs(alpha, 3))
         if chars:
             inputs += [decorate(rng, t, chars) for t in inputs] + [rng.choice(chars)]
+        if fixed_inputs is not None:
+            inputs = list(fixed_inputs)
         for text in inputs:
             try:
                 code, log = parse_logged_dyn(parser, text)
